@@ -197,6 +197,10 @@ pub fn generate(verif_seed: u64, idx: u64, property: &str, thorough: bool) -> Sc
     };
     let p_adv = if volume { 0 } else { p_adv };
     scn.picks = random_picks(&mut rng, 200 + 4 * total.min(500), total, p_spur, p_adv);
+    if rng.chance(1, 4) {
+        // priority schedules: one evaluation runs as far as it can while the others stay parked
+        crate::c05::random_priorities(&mut rng, total, &mut scn.exec);
+    }
     scn.exec.fresh_waker = rng.chance(1, 4);
     scn.exec.max_steps = 3000 + 40 * total as u32 + if volume { 600_000 } else { 0 };
     scn
